@@ -179,9 +179,64 @@ def one_case(args):
     return out
 
 
+def giga_case(exe, wd, seed, res):
+    """4.3 GB through a pipe (a block of 1000 packets with 8 kB payloads repeated 540 times): positions and byte counters beyond 2^32"""
+    import subprocess, threading, json
+    from common import Inconclusive
+    rng = rng_for(seed, 600000)
+    block = frame.generate(rng, 1000, payload="none", sane_headers=True)
+    sysid = block[0].f["system_id"]
+    for q in block:
+        q.f["system_id"] = sysid
+        q.payload = bytes(8000)
+    bdata = frame.serialize(block)
+    reps = 540
+    mode = rng.choice([["view", "rdh"], ["check", "sanity", "-m"], ["check", "all", "-m"]])
+    sp = os.path.join(wd, "giga.json")
+    p = subprocess.Popen([exe] + mode + ["-S", sp, "-D", "json"], stdin=subprocess.PIPE, stdout=subprocess.DEVNULL, stderr=subprocess.PIPE, cwd=wd, env=dict(os.environ, TMPDIR=wd))
+
+    def feed():
+        try:
+            for _ in range(reps):
+                p.stdin.write(bdata)
+            p.stdin.close()
+        except (BrokenPipeError, OSError):
+            pass
+    errbuf = []
+    t = threading.Thread(target=feed, daemon=True)
+    t2 = threading.Thread(target=lambda: errbuf.append(p.stderr.read()), daemon=True)
+    t.start()
+    t2.start()
+    try:
+        p.wait(timeout=1500)
+    except subprocess.TimeoutExpired:
+        p.kill()
+        raise Inconclusive("giga case: watchdog (1500 s)")
+    t.join(timeout=10)
+    t2.join(timeout=10)
+    err = errbuf[0] if errbuf else b""
+    rdir = save_replay("C14", "giga", {"stderr.txt": err[-20000:]}, dict(seed=seed, mode=mode, note="input: 540 x a generated 1000-packet block with 8000-byte payloads, see giga_case"))
+    res.evaluations += 1
+    desc = "giga: %d packets, %.2f GB through a pipe, %s" % (1000 * reps, len(bdata) * reps / 1e9, " ".join(mode))
+    res.sample(desc)
+    if p.returncode not in (0, 1):
+        res.violation("stats:giga:abnormal", "%s: abnormal end (status %s): %s" % (desc, p.returncode, err.decode("utf-8", "replace")[-300:]), rdir)
+        return
+    st = json.load(open(sp))["rdh_stats"]
+    os.unlink(sp)
+    want = dict(rdhs_seen=1000 * reps, payload_size=8000 * 1000 * reps, hbfs_seen=sum(1 for q in block if q.f["stop_bit"] == 1) * reps)
+    for k, v in want.items():
+        res.count("facts_compared", 1)
+        if st.get(k) != v:
+            res.violation("stats:giga:%s" % k, "%s: %s: statistics say %r, the input gives %r" % (desc, k, st.get(k), v), rdir)
+            return
+    res.nontrivial.add(("giga", tuple(mode)))
+
+
 def run(res):
     exe = build.fastpasta("rel")
     wd = scratch("c14")
+    giga_case(exe, wd, res.seed, res)        # (about 5-15 s: the tool skips or scans payloads at about 1 GB/s)
     n = 260 if res.tier == "quick" else 16000
     big = 0
     for o in pmap(one_case, [(exe, wd, res.seed, c, res.tier) for c in range(n)]):
@@ -193,6 +248,6 @@ def run(res):
             res.nontrivial.add(o["key"])
         res.sample(o["sample"])
     res.rule = ("G-frame (arbitrary headers) and G-conf streams x 9 modes (5 checks, 3 views, filter writer) x filters x {JSON, TOML} x {file, pipe}; every "
-                "statistic of the statement compared with the independent count; one scale case per run (140 000 packets, 17.7 MB of payload: all counters > 65 536, payload bytes > 2^24); non-trivial = distinct (mode, filter kind, format, generator, count class)")
+                "statistic of the statement compared with the independent count; one scale case per run (140 000 packets, 17.7 MB of payload: all counters > 65 536, payload bytes > 2^24) and one 4.35 GB pipe (byte counters and positions > 2^32); non-trivial = distinct (mode, filter kind, format, generator, count class)")
     res.min_nontrivial = 40 if res.tier == "quick" else 120
     res.assumptions = ["one system id per stream (layer/stave statistics are only collected for ITS)", "no error cap, no fatal input error"]
